@@ -166,6 +166,9 @@ pub struct Job {
     pub scenario: Scenario,
     pub bound: usize,
     pub max_execs: u64,
+    /// choice list the first execution starts from (empty for exploration; the
+    /// recorded choices when replaying a single execution)
+    pub initial: Vec<ChoicePoint>,
     /// called when the execution ends thread-blocked (no verdict from the closure):
     /// gets the log-so-far and returns the verdict to record
     pub on_blocked: Arc<dyn Fn(Vec<String>) -> Verdict + Send + Sync>,
@@ -236,9 +239,10 @@ struct JobState {
 impl JobState {
     fn new(job: Job) -> Self {
         let mut stacks: Vec<Vec<Pending>> = (0..=job.bound).map(|_| Vec::new()).collect();
+        let init = Arc::new(job.initial.clone());
         stacks[0].push(Pending {
-            parent: Arc::new(Vec::new()),
-            cut: 0,
+            cut: init.len(),
+            parent: init,
             alt: 0,
             devs: 0,
         });
